@@ -153,6 +153,23 @@ RULES = {'c13_ff_in_comment': rule_ff_in_comment, 'c13_fstring_error_node': rule
          'c13_nested_error_leaf': rule_nested_error_leaf}
 
 
+def g4_shard(k, versions, shard_no, nshards):
+    """semantic statement templates (valid and invalid) under scope headers, as texts for the listing oracle"""
+    env.setup()
+    from .c12 import g4_programs
+    fam = {'name': 'G4', 'versions': versions}
+    ctx = sigma._ctx(MOD, fam)
+    acc = sigma.make_acc(__import__('vp.props.c13', fromlist=['x']))
+    last = None
+    for i, t in enumerate(g4_programs(k)):
+        if i % nshards == shard_no:
+            check_text(ctx, fam, t, acc)
+            last = t
+    if shard_no == 0 and last:
+        acc.samples.append({'family': 'G4', 'text': last})
+    return acc.strip()
+
+
 def recheck(case):
     return sigma.recheck_text(MOD, case)
 
@@ -183,5 +200,10 @@ def run(tier, seed):
               'history of E-B; iter_errors on the recovered tree; non-trivial = trees with at least one issue')
     R.assumptions = ['texts limited to the listed alphabets/lengths/line pools']
     sigma.sweep(R, MOD, families(tier, seed))
+    acc = core.Acc()
+    k, vs = (2, ['3.6', '3.8', '3.10', '3.13']) if tier == 'quick' else (2, env.VERSIONS)
+    for a in core.pmap(MOD, 'g4_shard', [(k, vs, s, 64) for s in range(64)]):
+        acc.merge(a)
+    R.section('G4 templates <= %d statements' % k, acc, versions=vs)
     engb.run_plan(R, MOD, tier, seed, quick=(('3.9', 4), ('3.6', 4), ('3.14', 4)))
     return R.finish(recheck)
